@@ -6,7 +6,8 @@ every expected constant with the same type and value (ints exact, floats by bit 
 code points), consuming the file exactly.
 READER half (S-env): (a) every file the compiler wrote in the writer half goes through what
 `erg --mode read` does (CodeObj::from_pyc, then code_info) and must be read, printed and re-serialise
-to the same bytes; (b) every truncation and every byte position x replacement values of a set of
+to the same bytes (targets <= 3.9; for 3.10 / 3.11 the writer encodes the line table, so the decoded object is compared field by
+field with the target interpreter's own view of the file instead, which is done for every version); (b) every truncation and every byte position x replacement values of a set of
 seed files: the reader must answer Ok or Err, never panic / abort / hang / exhaust memory."""
 import json
 import os
@@ -160,6 +161,46 @@ def judge_writer(p, v, r, d):
     return out
 
 
+def view_differs(erg, cp, minor, path="module"):
+    """first difference between the reader's decoded object and CPython's view of the same file (both in the canonical
+    form of py/c15_dump.py), or None.  3.11 keeps one localsplus table: a captured argument is in CPython's co_varnames
+    *and* co_cellvars, the reader files it under cellvars only."""
+    if erg[0] != cp[0]:
+        return f"{path}: reader has {erg[0]}, CPython has {cp[0]}"
+    if erg[0] == "tuple":
+        if len(erg[1]) != len(cp[1]):
+            return f"{path}: tuple of {len(erg[1])} vs {len(cp[1])} elements"
+        for i, (a, b) in enumerate(zip(erg[1], cp[1])):
+            d = view_differs(a, b, minor, f"{path}[{i}]")
+            if d:
+                return d
+        return None
+    if erg[0] != "code":
+        return None if erg == cp else f"{path}: reader has {show(erg)}, CPython has {show(cp)}"
+    name = bytes.fromhex(cp[1]).decode("utf-8", "replace")
+    here = f"{path}/{name}"
+    for idx, field in ((1, "name"), (3, "names"), (5, "freevars"), (6, "cellvars"), (7, "filename")):
+        if erg[idx] != cp[idx]:
+            return f"{here}: {field} differs: reader {str(erg[idx])[:80]} CPython {str(cp[idx])[:80]}"
+    want_varnames = [n for n in cp[4] if not (minor >= 11 and n in cp[6])]
+    if erg[4] != want_varnames:
+        return f"{here}: varnames differ: reader {erg[4]} CPython {cp[4]} (cellvars {cp[6]})"
+    for k, v in cp[8].items():
+        if k == "flags":
+            # CPython <= 3.10 sets CO_NOFREE (0x40) itself when a code object has no free / cell variables: not part of the file
+            if (erg[8].get(k, 0) | 0x40) == (v | 0x40):
+                continue
+        if erg[8].get(k) != v:
+            return f"{here}: {k} differs: reader {str(erg[8].get(k))[:60]} CPython {str(v)[:60]}"
+    if len(erg[2]) != len(cp[2]):
+        return f"{here}: {len(erg[2])} vs {len(cp[2])} constants"
+    for i, (a, b) in enumerate(zip(erg[2], cp[2])):
+        d = view_differs(a, b, minor, f"{here}.consts[{i}]")
+        if d:
+            return d
+    return None
+
+
 def show(c):
     if c[0] == "str":
         s = bytes.fromhex(c[1]).decode("utf-8", "surrogatepass")
@@ -248,6 +289,11 @@ def run(chk):
             valid.append((sid, "seed:" + name, v, res[sid]["pyc"]))
         else:
             chk.machinery(f"seed {sid} did not compile: {res.get(sid)}")
+    seed_dumps = {}
+    for v in VERSIONS:
+        todo = [{"id": sid, "pyc": res[sid]["pyc"]} for (name, vv), sid in seed_ids.items() if vv == v and res.get(sid, {}).get("status") == "ok"]
+        seed_dumps.update(vlib.py_run(todo, "c15seeddump", version=v, chunk=100, script_name="c15_dump.py"))
+    views_compared = 0
     rv = run_reader(chk, [{"seed": path} for _, _, _, path in valid], "valid")
     reader_outcomes = {}
     feature_of = {}
@@ -255,7 +301,6 @@ def run(chk):
         if idx not in rv:
             continue
         outcome, detail = rv[idx]
-        reader_outcomes[outcome] = reader_outcomes.get(outcome, 0) + 1
         try:
             mp = pycmap.annotate(open(path, "rb").read(), minor_of(v))
             feats = "+".join(sorted(mp.features)) or "plain"
@@ -263,6 +308,13 @@ def run(chk):
             chk.violation(f"file-not-mappable:{cls}@{v}", {"half": "reader-valid", "pyc_of": k, "error": str(e)}, f"py/pycmap.py cannot map the file written for {cls} ({v}): {e}")
             continue
         feature_of[k] = mp
+        if outcome == "ok" and dumps.get(k, seed_dumps.get(k, {})).get("ok"):
+            # the decoded object must be what the file holds: compared with the target interpreter's own view of the file
+            diff = view_differs(detail["view"], dumps.get(k, seed_dumps.get(k))["code"], minor_of(v))
+            views_compared += 1
+            if diff:
+                outcome, detail = "decodes-differently", {"difference": diff}
+        reader_outcomes[outcome] = reader_outcomes.get(outcome, 0) + 1
         if outcome != "ok":
             src = progs[int(k[1:k.index("v")])]["src"] if k.startswith("p") else {**SEEDS, **SEEDS_THOROUGH}[cls.split(":")[1]]
             chk.violation(f"valid-file-{outcome}:{feats}@{v}", {"half": "reader-valid", "src": src if len(src) < 400 else src[:200] + "...", "target": v, "outcome": outcome, "detail": detail, "features": feats},
@@ -321,7 +373,7 @@ def run(chk):
         "samples": samples or [{"erg": progs[0]["src"]}],
         "exhaustive": True,
         "writer": {"programs": len(progs), "program_x_version_compiled": accepted, "declined_by_compiler": declined, "per_kind": per_class, "distinct_constant_tuples": len(distinct)},
-        "reader_valid_files": {"files": len(valid), "outcomes": reader_outcomes},
+        "reader_valid_files": {"files": len(valid), "outcomes": reader_outcomes, "decoded_objects_compared_with_cpython_view": views_compared},
         "reader_mutations": {"inputs": len(mut_items), "truncations": sum(1 for m in mut_meta if m[2] == "trunc"), "substitutions": sum(1 for m in mut_meta if m[2] == "subst"),
                              "seed_sizes": seed_sizes, "outcomes": mut_outcomes, "distinct_classes": len(mut_classes)},
     })
